@@ -99,6 +99,8 @@ class World:
         self.wire_out = {}         # pid -> bytearray (partial) for the result pipe
         self.msgs_out = {}         # pid -> [(step, time, kind, args)]
         self.dups = 0
+        self.in_pass = False
+        self.created_in_pass = 0
         self.frames = []           # payloads of ACK / READY messages workers wrote (for the 'dup' fault)
         self.in_buf = bytearray()
         self.in_off = 0
@@ -225,6 +227,8 @@ class World:
                                                              dict(kw) if kind == 'to' else None)))
             if kind == 'acc' and self.first_accept_time is None:
                 self.first_accept_time = self.k.now
+            if kind == 'acc':
+                self.k.record('accept-consumed', rec.uid)
             d = self.case.get('cb_delay')
             if d and kind in ('ok', 'err'):
                 # a slow user callback (it runs in the result handler thread)
@@ -330,6 +334,8 @@ class World:
                 self.do_terminate_job(op[1])
             elif name == 'dup':
                 self.do_dup(op[1], op[2])
+            elif name == 'at':
+                self.do_at(op[1], op[2])
             elif name == 'wait_accepted':
                 self.wait_accepted(op[1], op[2] if len(op) > 2 else 30.0)
             elif name == 'check_size':
@@ -521,6 +527,13 @@ class World:
         k = self.k
         k.record('user-join')
         self.marks['cur_op'] = 'join'
+        # a user-side event loop (threads=False) is the thread that calls join(): it does not go on calling
+        # the pool's handlers from elsewhere meanwhile (two readers on the result pipe would tear messages)
+        if not self.case['pool'].get('threads', True):
+            self.stop_evloop = True
+            for a in k.actors:
+                if a.kind == 'evloop' and a.state != 'done' and a is not k.cur():
+                    k.join_actor(a)
         self.marks['join_call'] = (k.steps, k.now)
         self.pool.join()
         self.marks['join_ret'] = (k.steps, k.now)
@@ -628,6 +641,15 @@ class World:
                         not any(o[1] in ('ok', 'err', 'stop') for o in rec.observed):
                     self.do_get(rec, DRAIN)
         self.marks['drain_end'] = (k.steps, k.now)
+        if self.case['prop'] == 'C04' and pool._state == self.P.RUN and self.case['pool'].get('threads', True):
+            # "the pool is brought back to size": look after the supervision pass that follows the last exit
+            # has completed, between two passes (not at an arbitrary instant in the middle of one)
+            k.sleep(1.0)
+            sa = next((x for x in k.actors if x.kind == 'Supervisor'), None)
+            if sa is not None:
+                a = k.enter('size-at-drain-end')
+                k.wait_until(a, lambda: sa.state == 'done' or (sa.state == 'blocked' and sa.label == 'sleep'),
+                             k.now + 5.0, 'size-at-drain-end')
         self.marks['pool_at_drain_end'] = self.size_snapshot()
         if mode == 'close_join':
             if pool._state == self.P.RUN:
@@ -769,9 +791,32 @@ class World:
     def resize_seen(self):
         return self.last_resize_step >= 0
 
+    def on_pass_begin(self, pool):
+        self.in_pass = True
+        self.created_in_pass = 0
+
+    def on_worker_created(self, pool, w):
+        if self.in_pass:
+            self.created_in_pass += 1
+
+    def do_at(self, cond, limit):
+        """Trigger: park the calling user thread until the pool is at a chosen internal instant, so that the
+        next operation lands there (a caller's timing relative to the pool's own threads is arbitrary)."""
+        k = self.k
+        preds = {
+            'mid-repopulate': lambda: self.in_pass and self.created_in_pass >= 1,
+            'mid-pass': lambda: self.in_pass,
+        }
+        a = k.enter('at:' + cond)
+        hit = k.wait_until(a, preds[cond], k.now + limit, 'at:' + cond)
+        if preds[cond]():
+            k.probe('trigger_' + cond.replace('-', '_'))
+            k.fault_fired('call_placed_' + cond.replace('-', '_'))
+
     def on_pass_end(self, pool, begin_step):
         """Called (in the supervising actor) right after a completed Pool._maintain_pool()."""
         k = self.k
+        self.in_pass = False
         if pool._state != self.P.RUN or self.resizing or k.host_exit is not None:
             return
         if self.last_resize_step >= begin_step:
